@@ -1709,7 +1709,7 @@ class Stream(AbstractStream):
             if len(phases) == 1:
                 phase, = phases
                 self.phase = phase
-                self.mol.copy_like(other.imol[phase])
+                self._imol.copy_like(other._imol.get_phase(phase))
                 return
             else:
                 self.phases = other.phases
